@@ -37,11 +37,14 @@ theorem handover_race_witness_empty_list :
 theorem handover_race_witness_prebuffered :
     ∃ sched, let s := run (init Eliot.Generated.handover [1, 2] (fun i => if i = 0 then [7] else []) [0]) sched
       finished s 1 = true ∧ lostB s [7] = true ∧ s.delivered 0 = [1, 2] :=
-  ⟨[.logger 0, .logger 0] ++ List.replicate 13 Tid.adder ++ [.logger 0, .logger 0], by decide⟩
+  ⟨[.logger 0, .logger 0] ++ List.replicate 30 Tid.adder ++ [.logger 0, .logger 0], by decide⟩
 
 /-! Sanity (the model is not trivially lossy): without interleaving nothing is lost. -/
-example : lostB (run raceInit ([.logger 0, .logger 0, .logger 0, .logger 0] ++ List.replicate 11 Tid.adder)) [7] = false := by decide
+example : lostB (run raceInit ([.logger 0, .logger 0, .logger 0, .logger 0] ++ List.replicate 20 Tid.adder)) [7] = false := by decide
 example : lostB (run raceInit (List.replicate 7 Tid.adder ++ [.logger 0, .logger 0, .logger 0, .logger 0])) [7] = false := by decide
-example : finished (run raceInit ([.logger 0, .logger 0, .logger 0, .logger 0] ++ List.replicate 11 Tid.adder)) 1 = true := by decide
+example : finished (run raceInit ([.logger 0, .logger 0, .logger 0, .logger 0] ++ List.replicate 20 Tid.adder)) 1 = true := by decide
+/-- a message logged while the re-send loop runs can overtake older buffered messages -/
+example : (run (init Eliot.Generated.handover [1, 2] (fun i => if i = 0 then [7] else []) [0])
+    (List.replicate 14 Tid.adder ++ List.replicate 4 (Tid.logger 0) ++ List.replicate 20 Tid.adder)).delivered 0 = [1, 7, 2] := by decide
 
 end Eliot.Conc.Handover
